@@ -275,9 +275,13 @@ EXPLANATION = ("Every path of Script.raw_serialize/serialize/parse, Witness, Loc
                "value. TxFetcher.fetch and symbolic list lengths are covered by the bounded companion only.")
 CATEGORY = "other"
 LEVEL_TEXT = ("Deductive for fixed transaction shapes (symbolic field values, every push length and compact-size width is a path "
-              "split) + bounded for list lengths 0..300 and for the fetcher. Tx.serialize_legacy / serialize_segwit / serialize_witness / hash are additionally proved "
-              "for EVERY number of inputs and outputs by loop invariants over lists of symbolic length (verif/contracts/listloops.py).  "
-              "Claimed 'other': parsing is proved for fixed shapes only and the fetcher history contract is decided at run time only.  "
+              "split) + bounded for list lengths 0..300 and for the fetcher. Tx.serialize_legacy / serialize_segwit / serialize_witness / hash and Tx.parse / parse_legacy / "
+              "parse_segwit are additionally proved for EVERY number of inputs and outputs by loop invariants over lists of symbolic "
+              "length (verif/contracts/listloops.py): serialisation == the BIP144 layout; parsing consumes exactly the layout and returns "
+              "the elements in order, with the element parsers ASSUMED inverse to the element serialisers (proved for concrete element "
+              "shapes) and, for segwit, without the clause that each parsed witness is attached to its input (blind spot of the abstract "
+              "element model, see listloops.py; decided for 1-2 inputs symbolically and up to 300 inputs at run time).  "
+              "Claimed 'other' for those reasons and because the fetcher history contract is decided at run time only.  "
               "The defects these checks found on the pinned tree are repaired by fix: commits in /repo (one `fixed:` line each in /verif/KNOWN_FINDINGS.jsonl).")
 LEVEL_NOTE = ("trusted: pyvc translation (A-ENGINE), spec functions (A-SPEC), harness functions, CPython builtin contracts "
               "(A-BUILTIN), hash functions uninterpreted, A-CR for the 'any change changes the id' clause; termination not verified")
